@@ -119,7 +119,7 @@ func TestC13(t *testing.T) {
 		"oracle: the acceptance predicate of the statement evaluated on (signature, supplied set); outputs must be nil on error and caller tensors unchanged")
 	defer reportKnownFindings("C13")
 
-	check(t, "signature", 25000, 80000, func(rt *rapid.T) {
+	check(t, "signature", 25000, 250000, func(rt *rapid.T) {
 		sig := genSignature(rt)
 		initShapes := map[string][]int{}
 		for _, in := range sig {
